@@ -59,6 +59,7 @@ package scheduler
 
 //@ func sortAddresses
 //@   props C14
+//@   modifies addrs
 //@   ensures ordDet(addrs)
 //@   note sort.Slice by bytes.Compare of the addresses: the resulting order depends only on the set of addresses (they are distinct map keys)
 
